@@ -21,7 +21,7 @@ CASE_ALARM_S = 300
 
 
 def bases(tier):
-    specs = [G.core_specs()[0], G.core_specs()[3]] if tier == "quick" else G.core_specs()
+    specs = [G.core_specs()[0], G.core_specs()[3]] if tier == "quick" else G.core_specs()[:4]
     cfgs = []
     for c in G.configs_star():
         if c["penalty"] in ("DualEquilibration", "ParetoDecrease") and tier == "quick":
